@@ -167,8 +167,18 @@ def finding_matches(f, v):
 # -------------------------------------------------------------------------------------------
 
 
+def out_root():
+    """Evidence/replays go to /verif only when the tree under test is /repo itself (mutation runs with
+    VERIF_REPO pointing at a scratch copy must not overwrite committed evidence)."""
+    if os.path.abspath(env.REPO) == '/repo':
+        return env.VERIF
+    d = os.environ.get('VERIF_OUT', '/tmp/verif-scratch-out')
+    os.makedirs(d, exist_ok=True)
+    return d
+
+
 def write_replay(pid, v):
-    d = os.path.join(env.VERIF, 'replays', pid)
+    d = os.path.join(out_root(), 'replays', pid)
     os.makedirs(d, exist_ok=True)
     body = {'property': pid, 'clause': v['clause'], 'case': v['case'], 'detail': v['detail']}
     dig = hashlib.blake2b(json.dumps(body, sort_keys=True, default=repr).encode(), digest_size=6).hexdigest()
@@ -242,6 +252,7 @@ def run_check(pid, tier, seed, jobs=None, budget=None):
             fresh.append(v)
     reported = []
     seen_sig = set()
+    fresh.sort(key=lambda v: len(json.dumps(v['case'], default=repr)))   # simplest witness first (stable)
     for v in fresh:
         key = (v['clause'], v['sig'])
         if key in seen_sig:
@@ -295,8 +306,8 @@ def run_check(pid, tier, seed, jobs=None, budget=None):
         'wall_s': round(wall, 2),
         'violations': len(reported),
     }
-    os.makedirs(os.path.join(env.VERIF, 'evidence'), exist_ok=True)
-    with open(os.path.join(env.VERIF, 'evidence', pid + '.json'), 'w') as f:
+    os.makedirs(os.path.join(out_root(), 'evidence'), exist_ok=True)
+    with open(os.path.join(out_root(), 'evidence', pid + '.json'), 'w') as f:
         json.dump(ev, f, indent=1, default=repr)
     sys.stdout.write('%s tier=%s seed=%d states=%d transitions=%d evaluations=%d nontrivial=%d outcomes=%d '
                      'violations=%d known=%d wall=%.1fs%s\n'
